@@ -582,7 +582,7 @@ class Keyvalues:
 
             elif token_type is BRACE_CLOSE:  # }
                 # Move back a block
-                open_keyvalues.pop()
+                closed_block = open_keyvalues.pop()
                 try:
                     cur_block = open_keyvalues[-1]
                 except IndexError:
@@ -599,8 +599,8 @@ class Keyvalues:
                 # We know this isn't a leaf KV, we made it earlier.
                 assert not isinstance(cur_block._value, str)
                 cur_block_contents = cur_block._value
-                # For replacing the block.
-                can_flag_replace = True
+                # For replacing the block - unless it was a skipped one, which was never added to its parent.
+                can_flag_replace = bool(cur_block_contents) and cur_block_contents[-1] is closed_block
             else:
                 raise tokenizer.error(token_type, token_value)
 
